@@ -24,6 +24,8 @@ mod token;
 mod token_kind;
 mod token_string_ext;
 mod vec_ext;
+#[cfg(harper_verif)]
+pub mod verif;
 mod word_metadata;
 
 use std::collections::VecDeque;
